@@ -3,11 +3,39 @@
 import json, os
 V = os.path.dirname(os.path.dirname(os.path.abspath(__file__)))
 BMC = "bounded model checking with cbmc 6.11 (SAT) of the real translation units: concrete structure, symbolic values, unwinding assertions, reachability witness per harness, counterexamples replayed natively (ASan) before being reported"
+IR = "C++ units are lowered with clang-14 -O1 to LLVM IR and translated to C by tools/ll2c.py (regenerated from /repo on every run), then checked by cbmc together with the real C units"
 CLAIMS = {
- "C07": dict(units="src/rtosc.c (C, given to cbmc unmodified apart from rewrite R1)",
-             text="For every buffer length n in the stated bounds ALL byte contents are covered by one SAT query each: no out-of-bounds read (cbmc pointer/bounds checks on an exact n-byte object), termination (unwinding assertions), result 0 or <= n, and for accepted buffers every accessor equals an independent reference decoder written in the harness. Bounded: all bytes symbolic for n<=8 (12 thorough); structured (fixed '/a' path and concrete tag string, symbolic payload) up to n=24 (44).",
-             note="x86-64 LP64, -DNDEBUG; unknown tags carry no payload; cbmc's isprint model; union {0} zero-fills (gcc/clang); buffers longer than the bounds are outside the claim",
-             ref="4/C07"),
+ "C01": dict(units="src/rtosc.c, src/cpp/arg-val.c, arg-val-itr.c, arg-val-math.c, arg-ext.c (C, cbmc directly)",
+             text="Per concrete type-tag string (exhaustive to length 1/2, representatives and random beyond) one SAT query per constructor/accessor family covers ALL values: every numeric bit pattern, every address byte string of length 1..5 (each length mod 4), strings and blobs of 0..5 bytes with NULL/non-NULL data, destination pre-filled with arbitrary stale bytes. The oracle is an OSC 1.0 reference encoder written in the harness; decoding is checked against the original values on the reference bytes.",
+             note="tag strings enumerated, not symbolic; varargs floats not NaN; arg-value-list constructor for flat lists; decode side uses concrete string/blob lengths (contents symbolic) and, for >1 tag, a concrete address text",
+             ref="4/C01"),
+ "C02": dict(units="src/rtosc.c, src/cpp/arg-val*.c",
+             text="Capacity is a symbolic variable 0..needed+8 inside each query (message shape concrete, values symbolic): return value, zero-fill on failure, exact bytes on success, and no byte at or beyond buffer+len modified (shadow copy + cbmc bounds checks on an object 8 bytes larger). rtosc_bundle with 0..2 (3) elements likewise.",
+             note="C++ call sites (ThreadLink::write, RtData::reply) are exercised only as far as the C06/C14 harnesses reach them", ref="4/C02"),
+ "C05": dict(units="src/dispatch.c (+ rtosc_argument_string of src/rtosc.c)",
+             text="Per concrete pattern generated from the documented grammar (literal, #N, {a,b}, multi-component, trailing '/', ':types' incl. empty alternative) one SAT query covers EVERY address byte string up to the per-pattern bound, every type string of 0..3 bytes and arbitrary following bytes, against a reference matcher written from doc/Guide.adoc; plus a unit contract check of rtosc_match_options.",
+             note="atoi is an environment model (stubs/atoi_model.c); alternatives prefix-free; patterns with two {..} groups only in the thorough tier; '*' patterns outside", ref="4/C05"),
+ "C06": dict(units="src/cpp/thread-link.cpp (via IR), src/rtosc.c",
+             text="Sequential histories by ONE-STEP INDUCTION: from every valid ring state (symbolic read index, ghost queue of 0..3 framed messages of 8/12/16 bytes, lookahead position, stale bytes elsewhere) one operation of the real code (writeArray / raw_write of 8,12,16,24 bytes, read, read_lookahead, hasNext*) is checked against the FIFO contract. Interleavings of the two threads are NOT explored.",
+             note="schedules quantifier not covered (cbmc threads reject the translated code; step-function sequentialisation not built) -- the claim is the sequential FIFO contract incl. drop-whole, lookahead and resynchronisation", ref="4/C06"),
+ "C07": dict(units="src/rtosc.c",
+             text="For every buffer length n in the stated bounds ALL byte contents are covered by one SAT query each: no out-of-bounds read (cbmc pointer/bounds checks on an exact n-byte object), termination (unwinding assertions), result 0 or <= n, and for accepted buffers every accessor equals an independent reference decoder written in the harness. All bytes symbolic for n<=8 (12 thorough); structured (fixed '/a' path and concrete tag string, symbolic payload) up to n=24 (44).",
+             note="unknown tags carry no payload; cbmc's isprint model; union {0} zero-fills (gcc/clang); buffers longer than the bounds are outside the claim", ref="4/C07"),
+ "C08": dict(units="src/rtosc.c",
+             text="Per concrete bundle shape (0..3 (4) elements; int/string messages, empty, singly and doubly nested bundles) one query covers all 64-bit time tags and payloads, with the destination pre-filled with stale bytes and exact or spare capacity: recognised as bundle, element count, each element byte-identical with exact size, time tag, total length == length function; a message is never a bundle.",
+             note="append_bundle of subtree-serialize.cpp not encoded", ref="4/C08"),
+ "C16": dict(units="src/cpp/arg-val-cmp.c, arg-val-itr.c, arg-val-math.c, arg-val.c, arg-ext.c (one TU lowered via IR), src/rtosc.c",
+             text="Per concrete list shape (types, array lengths, run lengths) one query covers all values: reflexive, antisymmetric, transitive, cmp==0 iff eq, semantic order per type; compression invariance of eq/cmp/iteration/message bytes for constant and integer-delta runs, incl. two compressed lists against each other and lists of different length.",
+             note="no NaN; non-NULL strings; default cmp options; runs of strings excluded; infinite ranges excluded", ref="4/C16"),
+ "C17": dict(units="src/cpp/ports.cpp (Port::MetaIterator/MetaContainer) via IR",
+             text="Per concrete block layout (1..3 (4) entries, key length 1..2, value absent or 0..2 bytes) one query covers every non-NUL byte content incl. ':' and '=' and a symbolic lookup key: iteration order and pointers, operator[] first-entry semantics, find, length.",
+             note="keys do not start with ':'", ref="4/C17"),
+ "C18": dict(units="src/cpp/ports.cpp (Ports::collapsePath) via IR",
+             text="Per concrete component structure ('..' / 1- / 2-char names; exhaustive to 3 (4) components, sampled to 6 (8)) one query covers every name byte: result pointer inside the buffer, collapsed string equals the stack-based reference, nothing before the buffer written.",
+             note="lookup by address and child search (apropos, operator[], path_search) over port tables are NOT claimed -- only the collapsePath clause", ref="4/C18"),
+ "C19": dict(units="src/cpp/automations.cpp via IR, src/rtosc.c",
+             text="Learn queue by one-step induction from every valid pre-state of 2..3 (5) slots: clearSlot(c) and handleMidi(symbolic plain controller) preserve the queue invariant, keep request order, bind exactly the first waiting slot, a bound controller drives exactly its slots. Output: for enumerated declared ranges/types, all pairs of slot values in [-2,3]: address, type, value inside [min,max], monotone, 0->min and 1->max at default gain/offset.",
+             note="createBinding/setSlotSubPath (port lookup, atof) not encoded; log scale outside; NRPN outside; roundf model", ref="4/C19"),
 }
 NA = {
  "C12": "end-to-end save/load pipeline over libc formatting (snprintf/sscanf in full generality) and data-shaped heap containers (std::map/std::set/std::vector<std::string>); no bounded symbolic encoding of that pipeline is within reach of cbmc here; its building blocks are decided under C01/C09/C10/C14/C16/C18",
@@ -36,6 +64,6 @@ for pid in ALL:
             "level_note": c["note"] + "; units verified: " + c["units"],
             "technique": BMC})
     else:
-        m["not_applicable"].append({"property_id": pid, "reason": NA.get(pid, "check not built yet in this session (work in progress; see DESIGN.md section 4 for the planned encoding)")})
+        m["not_applicable"].append({"property_id": pid, "reason": NA.get(pid, "no check built in the available time; the planned encoding is in DESIGN.md section 4")})
 json.dump(m, open(os.path.join(V, "MANIFEST.json"), "w"), indent=1)
 print("claimed:", sorted(CLAIMS))
